@@ -49,7 +49,7 @@ func buildQueryOpt(c *Ctx, i int, wantModel bool, forCVC5 bool, noQuant bool) st
 	}
 	b.WriteString("(set-logic ALL)\n")
 	for k, d := range c.decls[:it.DeclPos] {
-		if strings.HasPrefix(d, "LAMBDA\t") {
+		if strings.HasPrefix(d, "LAMBDA\t") || strings.HasPrefix(d, "LAMBDAR\t") {
 			d = expandLambdaDecl(d, forCVC5)
 		}
 		if strings.HasPrefix(d, "SOLVERDEF\t") {
@@ -206,8 +206,27 @@ func race(file, cvcFile string, timeout int) (solverAns, []solverAns) {
 // discharge runs one obligation through the portfolio.
 func discharge(c *Ctx, i int, fnKey string, tmp string, timeout int) ObResult {
 	it := &c.items[i]
-	if it.Expect == "sat" && timeout > 6 {
-		timeout = 6 // vacuity probes: a quick look is enough
+	if it.Expect == "sat" {
+		// vacuity probes: one quick look with the default solver is enough
+		r0 := ObResult{Fn: fnKey, Name: it.Name, Class: it.Class, Pos: fmt.Sprintf("%s:%d", it.Pos.Filename, it.Pos.Line), Text: it.Text, item: it, ctx: c, idx: i}
+		q0 := buildQueryOpt(c, i, false, false, true) // quantified assumptions left out: sat of the rest is what the probe looks for
+		f0 := filepath.Join(tmp, fmt.Sprintf("q_%p_%d_v.smt2", c, i))
+		os.WriteFile(f0, []byte(q0), 0o644)
+		res0, out0, dt0 := runSolver(solvers[0], f0, 3)
+		os.Remove(f0)
+		r0.Seconds = dt0
+		r0.QueryLen = len(q0)
+		r0.Solver = solvers[0].name
+		r0.Output = fmt.Sprintf("[%s] %s (%.2fs)", solvers[0].name, strings.TrimSpace(truncate(out0, 100)), dt0)
+		switch res0 {
+		case "sat":
+			r0.Status = "sat-ok"
+		case "unsat":
+			r0.Status = "vacuous"
+		default:
+			r0.Status = "unknown"
+		}
+		return r0
 	}
 	r := ObResult{Fn: fnKey, Name: it.Name, Class: it.Class, Pos: fmt.Sprintf("%s:%d", it.Pos.Filename, it.Pos.Line), Text: it.Text, item: it, ctx: c, idx: i}
 	q := buildQuery(c, i, false, false)
@@ -368,9 +387,14 @@ func dischargeAll(frs []*FnResult, filter func(name string) bool, workers, timeo
 
 // explain runs the query of obligation i with model production and prints
 // the values of the watch terms.
+var explainNoQuant bool
+
 func explain(c *Ctx, i int) string {
 	it := c.items[i]
 	q := buildQuery(c, i, true, false)
+	if explainNoQuant {
+		q = buildQueryOpt(c, i, true, false, true)
+	}
 	var terms []string
 	for _, w := range it.Watch {
 		terms = append(terms, w.Terms...)
@@ -554,7 +578,7 @@ func (c *Ctx) symIndex() map[string]map[string]bool {
 				}
 			}
 			idx[name] = set
-		case strings.HasPrefix(d, "LAMBDA\t"):
+		case strings.HasPrefix(d, "LAMBDA\t"), strings.HasPrefix(d, "LAMBDAR\t"):
 			parts := strings.SplitN(d, "\t", 4)
 			set := map[string]bool{}
 			for _, t := range identTokens(parts[3]) {
